@@ -62,6 +62,12 @@ int main(int argc, char** argv) {
                 if (!dyn_err.empty()) throw std::runtime_error(dyn_err);
                 auto r = dyn.DecodeJson(req["name"].get<std::string>(), req["bytes"].get<std::vector<std::uint8_t>>());
                 if (r.has_value()) out["value"] = r.value(); else out["null"] = true;
+            } else if (op == "dyn_load") {
+                // load ANOTHER reflection binary into the same DynamicSchema object
+                auto b = req["bytes"].get<std::vector<std::uint8_t>>();
+                dyn.LoadBinarySchema(std::string(b.begin(), b.end()));
+                dyn_err.clear();
+                out["loaded"] = true;
             } else if (op == "can_enc") {
                 bool dynamic = req["which"].get<std::string>() == "dynamic";
                 if (dynamic && !dyn_err.empty()) throw std::runtime_error(dyn_err);
